@@ -1,13 +1,248 @@
 import ScryerModel.Proofs.Stream
 /-!
 # C19 — Stream I/O round-trips and reports positions consistently
+
+`Model/Stream.lean` mirrors the stream builtins of `system_calls.rs` / `streams.rs` on a stream
+state `(content, cur = bytes consumed, past, lines, eof_action, type, direction, reposition)`:
+`check_stream_properties` (direction and type permission errors, then the `eof_action` step when
+the stream is past its end), the at-end tests of every builtin, `position_relative_to_end`,
+`set_position`, `$get_n_chars`, `read/2` on `text.` units and the output builtins. The character
+level is the specification of the buffered reader that C18 proves the real `CharReader` refines
+(`Utf8.decodeFirst` on the unread bytes). The model is the REPAIRED behaviour for the four defects
+found (notes/findings/C19-1..4); witnesses of the pinned behaviour are at the end.
+All theorems are for every content, every state and every script; lemmas are in `Proofs/Stream`.
 -/
 namespace Scryer.Stream
 open Scryer.Utf8
 
-/-- `get_char` returns exactly what `peek_char` shows, in every state (past the end, for every
-    eof_action, wrong direction or type included). -/
+/-! ## T1 — peeking never consumes input -/
+
+/-- `get_char`/`get_code` return exactly what `peek_char`/`peek_code` show, in every state (past
+    the end under every eof_action, wrong direction or type included). -/
 theorem C19_get_returns_what_peek_shows (s : St) : (textOp true s).2 = (textOp false s).2 :=
   textOp_result_eq s
+
+/-- the same for `get_byte` / `peek_byte`. -/
+theorem C19_get_byte_returns_what_peek_byte_shows (s : St) : (byteOp true s).2 = (byteOp false s).2 :=
+  byteOp_result_eq s
+
+/-- A peek leaves the whole stream state (cursor, line count, past flag) unchanged. The only
+    exception is the `eof_action(reset)` step of a stream that is already past its end, which is
+    the eof action and not the peek: then the state is the rewound stream. -/
+theorem C19_peek_leaves_state (s : St) :
+    ((s.past = false ∨ s.eofAction ≠ .reset) → (textOp false s).1 = s ∧ (byteOp false s).1 = s) ∧
+    ((textOp false s).1 = s ∨ (textOp false s).1 = resetSt s) := by
+  refine ⟨fun h => ⟨textOp_peek_state s h, byteOp_peek_state s h⟩, ?_⟩
+  rcases textOp_peek_state_cases s with h | ⟨_, _, _, h⟩
+  · exact Or.inl h
+  · exact Or.inr h
+
+/-- peek ; op ≡ op: a character read (or another peek) after a peek gives the same result and
+    the same next state as without the peek — unconditionally. -/
+theorem C19_peek_then_op (c : Bool) (s : St) : textOp c (textOp false s).1 = textOp c s :=
+  textOp_peek_then c s
+
+/-- the observers `at_end_of_stream/1`, `stream_property(S, end_of_stream(_))` and
+    `stream_property(S, position(_))` never change the state. -/
+theorem C19_observers_leave_state (s : St) :
+    (step s .atEnd).1 = s ∧ (step s .endOfStream).1 = s ∧ (step s .position).1 = s :=
+  ⟨rfl, rfl, rfl⟩
+
+/-! ## T2 — at_end_of_stream agrees with the next read -/
+
+/-- On a text input stream that is not yet past its end, `at_end_of_stream(S)` holds iff
+    `peek_char` (hence, by T1, the next `get_char`) returns end_of_file. -/
+theorem C19_at_end_iff_next_read_eof (s : St) (hc : check s .text true = none) (hp : s.past = false)
+    (hi : Inv s) :
+    atEnd s = true ↔ (textOp true s).2 = .ok .eof := by
+  rw [C19_get_returns_what_peek_shows]
+  exact atEnd_iff_peek_eof hc hp hi
+
+/-! ## T3 — positions and line counts are functions of the consumed prefix -/
+
+/-- A successful `get_char` advances the position by exactly the UTF-8 length of the character it
+    returned, these bytes are the character's encoding, the line count grows by one iff the
+    character is a newline, and nothing else changes. -/
+theorem C19_get_char_advances (s s' : St) (cp : Nat) (h : textCore true s = (s', .ok (.char cp))) :
+    s'.cur = s.cur + lenUtf8 cp ∧ (rest s).take (lenUtf8 cp) = encode cp ∧
+      s'.lines = s.lines + nlCount cp ∧ s'.past = s.past ∧ s'.content = s.content ∧
+      s.cur + lenUtf8 cp ≤ s.content.length :=
+  textCore_get_char h
+
+/-- HEADLINE (positions): for every content, every eof_action and every script of builtins other
+    than `set_stream_position` on a freshly opened text input stream — any interleaving of
+    get/peek char/code/byte, `get_n_chars`, `at_end_of_stream`, property queries, `read/2`, output
+    attempts — the reported line count is the number of newlines in the consumed prefix
+    `content.take position`, the position never exceeds the content, and the content and options
+    are untouched. Character-wise, block-wise and term-wise consumption therefore report the same
+    position and line count for the same consumed prefix. -/
+theorem C19_position_and_lines_match_consumed (content : List Nat) (eof : EofAction) (repos : Bool)
+    (ops : List Op) (hops : ∀ op ∈ ops, noReposition op = true) :
+    let s := (run (openIn content .text eof repos) ops).2
+    s.lines = countNl (s.content.take s.cur) ∧ s.cur ≤ s.content.length ∧ s.content = content := by
+  have h := good_run ops (openIn content .text eof repos) (good_openIn _ _ _ _) rfl rfl hops
+  exact ⟨h.1.2, h.1.1, h.2.1⟩
+
+/-- what `stream_property(S, position(P))` reports is that state: `position_and_lines_read(cur, lines)`. -/
+theorem C19_position_property (s : St) (h : s.output = false) :
+    (step s .position).2 = .ok (.pos s.cur s.lines) := by
+  show (if s.output then Res.fail else _) = _
+  rw [h]; rfl
+
+/-- The file mechanism: what `InputFileStream::position` computes from the file offset and the
+    reader's buffer (`offset − rem_buf_len`) is the number of bytes consumed, whatever the buffer
+    holds (retention, compaction, put-back: C18's `WF`), and a peek does not change it. -/
+theorem C19_file_position_is_consumed (total : Nat) (r : CharReader.St) (h : CharReader.WF r)
+    (ht : (CharReader.pending r).length ≤ total) :
+    filePosition total r = total - (CharReader.pending r).length ∧
+      filePosition total (CharReader.peekChar r).1 = filePosition total r := by
+  have hp := CharReader.peekChar_spec h
+  refine ⟨filePosition_eq h ht, ?_⟩
+  rw [filePosition_eq hp.1 (by rw [hp.2.1]; exact ht), filePosition_eq h ht, hp.2.1]
+
+/-! ## T4 — reading yields the decoding of the content; write-then-read round trip -/
+
+/-- Reading a text stream whose unread bytes are the encoding of `cps` character by character
+    yields exactly `cps`; afterwards the position is the end of the content and the line count has
+    grown by the number of newlines among them. -/
+theorem C19_read_chars_of_encoding (cps : List Nat) (s : St) (hs : ∀ c ∈ cps, isScalar c = true)
+    (hc : check s .text true = none) (hp : s.past = false) (hle : s.cur ≤ s.content.length)
+    (hr : rest s = encodeAll cps) :
+    getChars cps.length s = (cps.map (fun c => Res.ok (.char c)),
+      { s with cur := s.content.length, lines := s.lines + countNl cps }) :=
+  getChars_encodeAll cps s hs hc hp hle hr
+
+/-- HEADLINE (round trip, characters): characters written with `put_char` (`put_code`, `nl`,
+    `write`, `format` reduce to it) to a fresh text file, closed and reopened, are read back
+    identically by `get_char`, followed by end_of_file; then the stream is past its end. -/
+theorem C19_write_read_roundtrip_chars (cps : List Nat) (hs : ∀ c ∈ cps, isScalar c = true)
+    (eof : EofAction) (repos : Bool) :
+    let w := (run (openOut .text) (cps.map Op.putChar)).2
+    let r := getChars (cps.length + 1) (reopen w .text eof repos)
+    r.1 = cps.map (fun c => Res.ok (.char c)) ++ [Res.ok .eof] ∧ r.2.past = true ∧
+      r.2.cur = (encodeAll cps).length ∧ r.2.lines = countNl cps := by
+  have hw := (run_putChars cps (openOut .text) rfl rfl).1
+  have hcontent : ((run (openOut .text) (cps.map Op.putChar)).2).content = encodeAll cps := by
+    rw [hw]; rfl
+  simp only
+  have hr := getChars_encodeAll cps (reopen (run (openOut .text) (cps.map Op.putChar)).2 .text eof repos) hs rfl rfl
+    (Nat.zero_le _) (by unfold reopen openIn rest; simp [hcontent])
+  rw [getChars_append_one, hr]
+  have hlen : (reopen (run (openOut .text) (cps.map Op.putChar)).2 .text eof repos).content.length
+      = (encodeAll cps).length := by unfold reopen openIn; simp [hcontent]
+  refine ⟨?_, ?_, ?_, ?_⟩
+  · simp [textOp, check, reopen, openIn, textCore]
+  · simp [textOp, check, reopen, openIn, textCore]
+  · simp [textOp, check, reopen, openIn, textCore, hcontent]
+  · simp [textOp, check, reopen, openIn, textCore]
+
+/-- HEADLINE (round trip, bytes): bytes written with `put_byte` to a fresh binary file are read
+    back identically by `get_byte`. -/
+theorem C19_write_read_roundtrip_bytes (bs : List Nat) (eof : EofAction) (repos : Bool) :
+    let w := (run (openOut .binary) (bs.map Op.putByte)).2
+    (getBytes bs.length (reopen w .binary eof repos)).1 = bs.map (fun b => Res.ok (.byte b)) := by
+  have hw := (run_putBytes bs (openOut .binary) rfl rfl).1
+  simp only
+  rw [getBytes_all bs _ rfl rfl (by rw [hw]; unfold reopen openIn rest openOut; simp)]
+
+/-! ## T5 — get_n_chars is n repeated get_char -/
+
+/-- `get_n_chars(S, N, Cs)` on a text input stream (not past its end, eof_action other than
+    reset, which would rewind) delivers exactly the characters that `N` calls of `get_char`
+    deliver, and leaves the same position and line count. -/
+theorem C19_get_n_chars_eq_repeated_get_char (n : Nat) (s : St) (hc : check s .text true = none)
+    (hp : s.past = false) (hr : s.eofAction ≠ .reset) (hle : s.cur ≤ s.content.length) :
+    (getNChars n s).2 = .ok (.chars (charsOf (getChars n s).1)) ∧
+      (getNChars n s).1.cur = (getChars n s).2.cur ∧
+      (getNChars n s).1.lines = (getChars n s).2.lines := by
+  have ⟨ho, ht⟩ := check_text_none hc
+  have h := takeChars_eq_getChars n s hc hp hr hle
+  rw [getNChars_text n ho ht]
+  exact ⟨by rw [h.1], h.2.1.symm, h.2.2.symm⟩
+
+/-! ## T6 — reading past the end honours eof_action; the permission-error table -/
+
+/-- Past the end of a text input stream: `eof_action(error)` raises
+    `permission_error(input, past_end_of_stream, S)`, `eof_action(eof_code)` returns the
+    end-of-file value again, `eof_action(reset)` rewinds the stream and reads on; in the first two
+    cases the state does not change. The same for byte input. -/
+theorem C19_past_end_honours_eof_action (c : Bool) (s : St) (hp : s.past = true) :
+    (check s .text true = none →
+      (s.eofAction = .error → textOp c s = (s, .error .inputPastEnd)) ∧
+      (s.eofAction = .eofCode → textOp c s = (s, .ok .eof)) ∧
+      (s.eofAction = .reset → textOp c s = textCore c (resetSt s))) ∧
+    (check s .binary true = none →
+      (s.eofAction = .error → byteOp c s = (s, .error .inputPastEnd)) ∧
+      (s.eofAction = .eofCode → byteOp c s = (s, .ok .eof)) ∧
+      (s.eofAction = .reset → byteOp c s = byteCore c (resetSt s))) :=
+  ⟨fun hc => textOp_past c hc hp, fun hc => byteOp_past c hc hp⟩
+
+/-- Reaching the end: the first read at the end returns end_of_file and makes the stream past its
+    end; a peek there returns end_of_file and does not. -/
+theorem C19_at_end_read (s : St) (hc : check s .text true = none) (hp : s.past = false)
+    (he : s.cur = s.content.length) :
+    textOp true s = ({ s with past := true }, .ok .eof) ∧ textOp false s = (s, .ok .eof) := by
+  rw [textOp_of_none true hc hp, textOp_of_none false hc hp]
+  unfold textCore
+  simp [he]
+
+/-- The permission-error table: character input from an output stream / from a binary stream,
+    byte input from a text stream, output to an input stream / to a stream of the other type raise
+    the corresponding permission error and leave the stream unchanged. -/
+theorem C19_permission_errors (c : Bool) (s : St) :
+    (s.output = true → textOp c s = (s, .error .inputStream) ∧ byteOp c s = (s, .error .inputStream)) ∧
+    (s.output = false → s.ty = .binary → textOp c s = (s, .error .inputBinary)) ∧
+    (s.output = false → s.ty = .text → byteOp c s = (s, .error .inputText)) ∧
+    (s.output = false → ∀ cp b, step s (.putChar cp) = (s, .error .outputStream) ∧
+        step s (.putByte b) = (s, .error .outputStream)) ∧
+    (s.output = true → s.ty = .binary → ∀ cp, step s (.putChar cp) = (s, .error .outputBinary)) ∧
+    (s.output = true → s.ty = .text → ∀ b, step s (.putByte b) = (s, .error .outputText)) := by
+  refine ⟨fun h => ?_, fun h t => ?_, fun h t => ?_, fun h cp b => ?_, fun h t cp => ?_, fun h t b => ?_⟩
+  · constructor <;> simp [textOp, byteOp, check, h]
+  · simp [textOp, check, h, t]
+  · simp [byteOp, check, h, t]
+  · constructor <;> simp [step, putOp, check, h]
+  · simp [step, putOp, check, h, t]
+  · simp [step, putOp, check, h, t]
+
+/-! ## non-vacuity and branch coverage -/
+
+-- "hé€😀\r\nz": multi-byte characters, CRLF, no final newline; positions are byte offsets
+example : (run (openIn [0x68, 0xC3, 0xA9, 0xE2, 0x82, 0xAC, 0xF0, 0x9F, 0x98, 0x80, 13, 10, 0x7A] .text .eofCode true)
+    [.getChar, .getChar, .position, .peekChar, .getCode, .getChar, .position, .getNChars 2, .position,
+     .atEnd, .getChar, .atEnd, .endOfStream, .getChar, .endOfStream, .getChar]).1
+  = [.ok (.char 0x68), .ok (.char 0xE9), .ok (.pos 3 0), .ok (.char 0x20AC), .ok (.char 0x20AC),
+     .ok (.char 0x1F600), .ok (.pos 10 0), .ok (.chars [13, 10]), .ok (.pos 12 1), .ok (.bool false),
+     .ok (.char 0x7A), .ok (.bool true), .ok (.endpos .at), .ok .eof, .ok (.endpos .past), .ok .eof] := by
+  decide
+-- eof_action(error) and (reset) on the empty file
+example : (run (openIn [] .text .error false) [.peekChar, .getChar, .peekChar, .getChar, .atEnd]).1
+  = [.ok .eof, .ok .eof, .error .inputPastEnd, .error .inputPastEnd, .ok (.bool true)] := by decide
+example : (run (openIn [0x61, 10] .text .reset false) [.getChar, .getChar, .position, .getChar, .position, .getChar, .position]).1
+  = [.ok (.char 0x61), .ok (.char 10), .ok (.pos 2 1), .ok .eof, .ok (.pos 2 1), .ok (.char 0x61), .ok (.pos 1 0)] := by decide
+-- term-wise and character-wise consumption of "a.\nbb.\n" report the same positions
+example : (run (openIn [0x61, 0x2E, 10, 0x62, 0x62, 0x2E, 10] .text .eofCode false) [.readTerm, .position, .readTerm, .position, .readTerm]).1
+  = [.ok (.term [0x61]), .ok (.pos 3 1), .ok (.term [0x62, 0x62]), .ok (.pos 7 2), .ok .eof] := by decide
+example : (run (openIn [0x61, 0x2E, 10, 0x62, 0x62, 0x2E, 10] .text .eofCode false) [.getNChars 3, .position, .getNChars 4, .position]).1
+  = [.ok (.chars [0x61, 0x2E, 10]), .ok (.pos 3 1), .ok (.chars [0x62, 0x62, 0x2E, 10]), .ok (.pos 7 2)] := by decide
+-- set_stream_position: beyond the end makes the stream past its end; back inside clears it
+example : (run (openIn [0x61, 0x62] .text .eofCode true) [.setPosition 5, .endOfStream, .getChar, .setPosition 1, .endOfStream, .getChar]).1
+  = [.ok .unit, .ok (.endpos .past), .ok .eof, .ok .unit, .ok (.endpos .not), .ok (.char 0x62)] := by decide
+-- a U+FEFF is an ordinary character for character I/O (repaired behaviour, finding C19-2)
+example : (run (openIn [0xEF, 0xBB, 0xBF, 0x61] .text .eofCode false) [.peekChar, .getChar, .getChar]).1
+  = [.ok (.char 0xFEFF), .ok (.char 0xFEFF), .ok (.char 0x61)] := by decide
+-- binary streams: all byte values round-trip; type errors
+example : (run (openIn [0, 0xFF, 10] .binary .eofCode false) [.peekByte, .getByte, .getByte, .getChar, .getByte, .getByte, .getByte]).1
+  = [.ok (.byte 0), .ok (.byte 0), .ok (.byte 0xFF), .error .inputBinary, .ok (.byte 10), .ok .eof, .ok .eof] := by decide
+
+/-! ## sensitivity: the pinned in-memory stream position (finding C19-3)
+
+`Stream::position` of an in-memory stream at the pinned commit is the cursor of the underlying
+`Cursor<Vec<u8>>` (`bytePositionOld`), without subtracting the reader's buffer. After the first
+peek of "abc" the reader has fetched all three bytes: the pinned position is 3 (= the length, so
+`position_relative_to_end` says `at` and `get_char` returns end_of_file) while nothing has been
+consumed; `filePosition`, which `C19_file_position_is_consumed` is about, is 0. -/
+example : bytePositionOld 3 (CharReader.peekChar (CharReader.init [[0x61, 0x62, 0x63]])).1 = 3 := by decide
+example : filePosition 3 (CharReader.peekChar (CharReader.init [[0x61, 0x62, 0x63]])).1 = 0 := by decide
 
 end Scryer.Stream
